@@ -141,7 +141,7 @@ class MachO(BinFormat):
         to the corresponding MachO instance.
         """
         self.__file.seek(a.offset)
-        data = self.__file.read(a.size)
+        data = self.__file.read(a["size"])
         a.bin = MachO(DataIO(data))
 
     def read_commands(self, offset):
